@@ -6,6 +6,7 @@ mod sim;
 mod sim_ps;
 mod sim_rr;
 mod topic;
+mod transforms;
 mod wire;
 mod util;
 
@@ -19,6 +20,7 @@ fn main() {
     match args[0].as_str() {
         "backoff" => backoff::main(&args[1..]),
         "topic" => topic::main(&args[1..]),
+        "transforms" => transforms::main(&args[1..]),
         "c03" => net_c03::main(&args[1..]),
         "ps" => sim_ps::main(&args[1..]),
         "rr" => sim_rr::main(&args[1..]),
